@@ -142,7 +142,7 @@ class Gen:
     """Generates programs the unchanged compiler accepts most of the time and compiles correctly
     (constructs with a listed known finding are avoided unless `probe` names them)."""
 
-    def __init__(self, rng, placement="zp", wide=True, shorts=False, arrays=True, calls=True, regs=True, probe=(), inline_rate=0.3, gotos=False):
+    def __init__(self, rng, placement="zp", wide=True, shorts=False, arrays=True, calls=True, regs=True, probe=(), inline_rate=0.3, gotos=False, memsub=True):
         self.rng = rng
         self.p = Program()
         self.placement = placement
@@ -154,6 +154,7 @@ class Gen:
         self.probe = set(probe)
         self.inline_rate = inline_rate
         self.gotos = gotos
+        self.memsub = memsub       # subscripts by memory operands / array elements
         self.nlabels = 0
         self.chars = []
         self.shorts = []
@@ -184,6 +185,13 @@ class Gen:
                 n = "s%d" % i
                 self.shorts.append(n)
                 self.p.decls.append(("unsigned short", n, None, self.qual()))
+        self.warrs = []
+        if self.use_shorts and r.random() < 0.5:
+            # an array of 16-bit elements (two byte planes in memory): element accesses by X, Y and constants
+            n = "w0"
+            ln = r.choice([2, 4])
+            self.warrs.append((n, ln))
+            self.p.decls.append(("unsigned short", n, ln, self.qual()))
         if self.use_arrays:
             for i in range(r.randint(1, 2)):
                 n = "a%d" % i
@@ -201,7 +209,14 @@ class Gen:
             return ('var', r.choice(['X', 'Y']))
         if self.arrays and x < 0.5:
             a, ln = r.choice(self.arrays)
-            if regs and self.use_regs and r.random() < 0.5:
+            k = r.random()
+            if regs and self.use_regs and self.memsub and k < 0.1:
+                # a subscript that is itself an array element or a memory variable (the generator has to
+                # bring it into an index register first)
+                b, lnb = r.choice(self.arrays)
+                return ('idx', a, r.choice([('idx', b, ('var', r.choice(['X', 'Y']))), ('var', r.choice(self.chars)),
+                                            ('idx', b, ('num', r.randrange(lnb)))]))
+            if regs and self.use_regs and k < 0.5:
                 return ('idx', a, ('var', r.choice(['X', 'Y'])))
             return ('idx', a, ('num', r.randrange(ln)))
         return ('var', r.choice(self.chars))
@@ -322,6 +337,22 @@ class Gen:
     def short_stmt(self):
         r = self.rng
         s = r.choice(self.shorts)
+        if self.warrs and r.random() < 0.35:
+            # statements on an element of a 16-bit array (outside the Lean C semantics: used by the
+            # metamorphic and level-to-level comparisons only)
+            w, ln = r.choice(self.warrs)
+            idx = r.choice([('var', 'X'), ('var', 'Y'), ('num', r.randrange(ln))]) if self.use_regs else ('num', r.randrange(ln))
+            el = ('idx', w, idx)
+            k = r.random()
+            if k < 0.3:
+                return ('expr', ('opasg', r.choice(['+', '-', '|', '&', '^']), el, r.choice([('num', r.choice([1, 255, 256, 300, 0x8001])), ('var', s), ('var', r.choice(self.chars))])))
+            if k < 0.5:
+                return ('expr', ('asg', el, ('bin', r.choice(['+', '-', '|']), el, r.choice([('num', r.choice([1, 256, 300])), ('var', s)]))))
+            if k < 0.65:
+                return ('expr', (r.choice(['pre', 'post']), r.choice(['++', '--']), el))
+            if k < 0.85:
+                return ('expr', ('asg', el, r.choice([('var', s), ('num', r.choice([0, 1, 0x1234, 65535]))])))
+            return ('expr', ('asg', ('var', s), el))
         x = r.random()
         if x < 0.3:
             return ('expr', ('asg', ('var', s), ('num', r.choice([0, 1, 255, 256, 1000, 65535, 0x1234]))))
@@ -605,6 +636,8 @@ def stoks(s):
 
 def program_tokens(p):
     """the functions of a Program as token segments (main last)"""
+    if any(n and "short" in ct for (ct, name, n, q) in p.decls):
+        raise Unsupported('arrays of 16-bit elements are outside the Lean C semantics')
     segs = []
     for (ret, name, params, body, inline) in p.funcs:
         if params or ret != 'void':
